@@ -572,6 +572,25 @@ def nat_set_type(h):
         h.check(ok, P + 'set_type.py::set_type', (vals, pol), (err, want_rows), got[:2])
 
 
+def nat_set_type_multi(h):
+    """set_type with a field-name pattern over several resources: every resource is cast / transformed on ITS OWN matching
+    fields only; rows carry no undeclared keys"""
+    from dataflows import Flow, set_type
+    for _ in range(h.n(20, 200)):
+        a = [{'id': i, 'ship_date': '2020-01-%02d' % (i + 1)} for i in range(h.rng.randint(1, 3))]
+        b = [{'id': i, 'order_date': '2021-02-%02d' % (i + 1), 'note': 'n'} for i in range(h.rng.randint(1, 3))]
+        use_transform = h.rng.random() < 0.7
+        kw = dict(transform=(lambda v: v.replace('-', '/') if v else v)) if use_transform else {}
+        got = h.run(lambda: Flow([dict(r) for r in a], [dict(r) for r in b],
+                                 set_type('.*_date', type='string', resources=None, **kw)).results())
+        if not h.check(got[0] == 'ok', P + 'set_type.py::set_type', (a, b, use_transform), 'ok', got[:2]):
+            continue
+        res, dp, _ = got[1]
+        f = (lambda v: v.replace('-', '/')) if use_transform else (lambda v: v)
+        want = [[dict(r, ship_date=f(r['ship_date'])) for r in a], [dict(r, order_date=f(r['order_date'])) for r in b]]
+        h.check(res == want, P + 'set_type.py::set_type.process_resources', (a, b, use_transform), want, res)
+
+
 # ------------------------------------------------------------------------------------------------ validate
 
 def sym_validate_custom(vc):
@@ -668,7 +687,7 @@ ITEMS = [
     Item('wrap_handler', sym_wrap_handler, [], SV_FILE + '::wrap_handler'),
     Item('handlers', sym_handlers, [], SV_FILE + '::clear'),
     Item('set_type.transformer', sym_set_type_transformer, [], P + 'set_type.py::set_type.transformer'),
-    Item('set_type.selection', sym_set_type_selection, [('policy-differential', nat_set_type)],
+    Item('set_type.selection', sym_set_type_selection, [('policy-differential', nat_set_type), ('multi-resource', nat_set_type_multi)],
          P + 'set_type.py::set_type.process_datapackage'),
     Item('validate.custom', sym_validate_custom, [('differential', nat_validate)], P + 'validate.py::validate.rows_validator.func'),
     Item('validate.schema', sym_validate_with_schema, [], P + 'validate.py::validate.validate_with_schema.func'),
